@@ -201,6 +201,92 @@ def recommend (find : Bytes → Nat → Bytes → Option Nat) (cfg : Cfg) (st : 
       else if hasLineBreak q.text then (st, .badText)
       else doAddRecommend st idx r (formatComment cfg q) q.ctype q.mtime
 
+/-! ### the two phases of a comment, for interleaved commenters
+
+Recommend is not atomic.  Phase A (Recommend up to FormatCommentString) reads the index entry ONCE
+(`GetRecord`) and keeps that copy; phase B (doAddRecommend) appends the line under the article's lock —
+a commenter that finds the article locked sleeps DO_ADD_RECOMMEND_LOCK_WAIT and retries — then decides its
+delta from the copy of phase A, which by then may be stale, and hands it to ModifyDirLite, which re-reads the
+entry from the file.  Other commenters' phases may run between any two of these steps.  ModifyDirLite
+itself (read, modify, write of one entry through one descriptor) is taken as one step. -/
+
+/-- what a commenter carries from phase A into phase B. -/
+structure Ticket where
+  idx : Nat        -- 1-based index GetRecord returned
+  copy : Bytes     -- the COPY of the entry (fhdr): its name and its score are used later
+  line : Bytes     -- the formatted comment
+  ctype : Nat
+  mtime : Int      -- DashT(article) after this commenter's own write
+  deriving Repr, DecidableEq
+
+/-- phase A: lookup, refusal tests, formatting.  Reads the state, changes nothing. -/
+def phaseA (find : Bytes → Nat → Bytes → Option Nat) (cfg : Cfg) (st : St) (q : Req) : Except Res Ticket :=
+  let total := st.dir.bytes.length / dirSz
+  if total = 0 then .error .params
+  else match getRecord find st.dir total q.name with
+    | .error e => .error e
+    | .ok (idx, r) =>
+      if refusedBy cfg q r then .error .refused
+      else if hasLineBreak q.text then .error .badText
+      else .ok { idx := idx, copy := r, line := formatComment cfg q, ctype := q.ctype, mtime := q.mtime }
+
+/-- phase B, first half: the O_APPEND write to the article named in the copy. -/
+def phaseWrite (st : St) (t : Ticket) : Except Res St :=
+  let fname := cstr (field t.copy offFilename lenFilename)
+  match fileGet st.files fname with
+  | none => .error .noFile
+  | some old => .ok { st with files := fileSet st.files fname (old ++ t.line) }
+
+/-- phase B, second half: the delta is decided from the COPY's score; ModifyDirLite adds it to the score it
+re-reads from the file and clamps the sum. -/
+def phaseIndex (st : St) (t : Ticket) : St × Res :=
+  let nameArr := field t.copy offFilename lenFilename
+  let update := scoreUpdate t.ctype (toInt8 (t.copy.getD offRecommend 0))
+  if t.mtime > 0 then
+    match modifyDirLite st.dir (t.idx : Int) (modArgs nameArr t.mtime update) with
+    | (dir', .unit .ok) => ({ st with dir := dir' }, .ok t.line t.idx)
+    | (_, .unit .invalidIdx) => (st, .idxErr)
+    | (_, _) => (st, .osErr)
+  else (st, .ok t.line t.idx)
+
+/-- the whole of phase B. -/
+def phaseB (st : St) (t : Ticket) : St × Res :=
+  match phaseWrite st t with
+  | .error e => (st, e)
+  | .ok st1 => phaseIndex st1 t
+
+/-- one scheduling step of a system of commenters: a new commenter runs phase A (its ticket joins the
+pending ones), or a pending commenter performs its write, or its index update (and leaves). -/
+inductive Ev where
+  | begin (cfg : Cfg) (q : Req)
+  | write (i : Nat)
+  | index (i : Nat)
+  deriving Repr
+
+structure Sys where
+  st : St
+  pending : List Ticket
+  deriving Repr
+
+def stepEv (find : Bytes → Nat → Bytes → Option Nat) (s : Sys) : Ev → Sys
+  | .begin cfg q =>
+    match phaseA find cfg s.st q with
+    | .ok t => { s with pending := s.pending ++ [t] }
+    | .error _ => s
+  | .write i =>
+    match s.pending[i]? with
+    | none => s
+    | some t =>
+      match phaseWrite s.st t with
+      | .ok st1 => { s with st := st1 }
+      | .error _ => { s with pending := s.pending.eraseIdx i }   -- the call returns the error
+  | .index i =>
+    match s.pending[i]? with
+    | none => s
+    | some t => { st := (phaseIndex s.st t).1, pending := s.pending.eraseIdx i }
+
+def runEv (find : Bytes → Nat → Bytes → Option Nat) (s : Sys) (evs : List Ev) : Sys := evs.foldl (stepEv find) s
+
 /-- a history of requests on one board (the configuration may change between requests). -/
 def run (find : Bytes → Nat → Bytes → Option Nat) (st : St) : List (Cfg × Req) → St
   | [] => st
